@@ -51,11 +51,11 @@ Proof.
 Qed.
 
 Lemma sweep_565 : forallb (px_ok Rgb565) (zrange (Z.to_nat 65536) 0) = true.
-Proof. vm_compute. reflexivity. Qed.
+Proof. vm_cast_no_check (eq_refl true). Qed.
 Lemma sweep_4444 : forallb (px_ok Argb4444) (zrange (Z.to_nat 65536) 0) = true.
-Proof. vm_compute. reflexivity. Qed.
+Proof. vm_cast_no_check (eq_refl true). Qed.
 Lemma sweep_gray : forallb (px_ok Gray8) (zrange (Z.to_nat 256) 0) = true.
-Proof. vm_compute. reflexivity. Qed.
+Proof. vm_cast_no_check (eq_refl true). Qed.
 
 Lemma good_565 p : 0 <= p < 65536 -> px_good Rgb565 p.
 Proof. intros H. apply px_ok_good. apply (proj1 (forallb_forall _ _) sweep_565). apply zrange_In. lia. Qed.
